@@ -5,7 +5,7 @@ The two big tables (EnumItem, ElementName) go through the MIR symbolic executor 
 """
 import os
 import re
-from vlib.core import Harness, SPEC_SRC
+from vlib.core import Harness, E2Spec, SPEC_SRC
 
 
 def count_items(fname, const='STRING_TABLE'):
@@ -57,7 +57,25 @@ def build(tier, known):
     hs.append(Harness(f'h_c18_version_from_str_n{nv}', 'spec', 'spec_lib.rs', f'h_version_from_str_sound!(h_c18_version_from_str_n{nv}, {nv}, {nv + 3});',
                       functions=['AutosarVersion::from_str', 'AutosarVersion::filename'], bound=f'all ASCII strings of length <= {nv}; unwind {nv + 3}',
                       claim='from_str(s) == Ok(x) => s == filename(x)', timeout=900 if q else 3600))
+    # ---- the three perfect-hash lookups through engine E2 (the two big tables are out of CBMC's reach: symbolic index into
+    #      a 6459-entry table of &str, measured: no verdict after 9 min at 2.3 GB) ----
+    hs.append(Harness('n_c18_names', 'spec', 'spec_lib.rs', '', functions=[], bound='', claim='', role='native'))
+    sizes = dict(attr=n_attr, enum=count_items('enumitem.rs'), elem=count_items('elementname.rs'))
+    for tab, cnt in sizes.items():
+        parts = 1 if cnt < 500 else 16
+        hs.append(E2Spec(f'e2_c18_{tab}_complete', 'C18Names', dict(table=tab, mode='complete', _crates=['spec']),
+                         functions=['hashfunc', f'{tab} from_bytes (MIR of the specification crate, static DISPLACEMENTS from the dump)'],
+                         bound=f'symbolic item index over all {cnt} items of the table (one path per item)',
+                         claim='from_bytes(to_str(i)) == Ok(i) for every item (=> distinct items have distinct texts)',
+                         native=('spec', 'n_c18_names'), parts=parts, timeout=1200 if q else 3600))
+        for n in (0, 1):
+            hs.append(E2Spec(f'e2_c18_{tab}_sound_n{n}', 'C18Names', dict(table=tab, mode='sound', n=n, _crates=['spec']),
+                             functions=['hashfunc', f'{tab} from_bytes'],
+                             bound=f'all byte strings of length exactly {n}',
+                             claim='from_bytes(s) == Ok(x) => x inside the table and to_str(x) == s; Err => s is not the text of an item',
+                             native=('spec', 'n_c18_names'), parts=(8 if n == 1 else 1), timeout=1200 if q else 3600))
     info = dict(
+        e2_spec_entries='names',
         assumptions=['64-bit little-endian target (hashfunc uses from_ne_bytes)',
                      'completeness harnesses build the item from its discriminant by transmute; discriminant == table index is what from_bytes itself relies on'],
         outside_claim=['byte strings longer than the stated bound (soundness of from_bytes)',
